@@ -6,8 +6,8 @@ PID = "C18"
 MODULE, PKG, BIN = "core", "./verifh/c18", "c18"
 COQ_IMPORTS = "From Synnax Require Import Common.Base Core.Ontology Core.Rbac Monitors.Mon_C18."
 CASE_TYPE = "case_t"
-COUNTS = {"quick": 400, "thorough": 20000}
-SHARD = 50
+COUNTS = {"quick": 240, "thorough": 20000}
+SHARD = 30
 HARNESS_TIMEOUT = 1500
 
 SUBJECTS = [("user", "u1"), ("user", "u2"), ("user", "u10"), ("user", "u1x")]
@@ -26,14 +26,16 @@ RULE = ("histories of 8-30 ops over 1-3 subjects (user:u1, u2, u10, u1x; some ne
 TRUSTED = ["hook core/pkg/service/access/rbac/export_verif.go (VerifService: rbac.Service assembled from opened policy "
            "and role services without provisioning built-ins); hook ontology/export_verif.go (VerifScan)",
            "ontology, group, search, policy and role services over gorp.Wrap(memkv.New()) run for real; the random "
-           "key of the 'Users' group is renamed to a fixed alias in the dumps"]
+           "key of the 'Users' group and the UUID keys of the case alphabet are renamed to short aliases (users-group, "
+           "k<n>) in the dumps — an injective renaming that preserves all prefix/suffix relations between keys"]
 ASSUMES = ["one transaction open at a time", "role / policy keys are UUIDs, subject and object identifiers contain no "
            "'->' and their types are not extensions of 'role' / 'policy' (theorem guards)"]
 PARTIAL = None
 
 
 def uk(n):
-    return "00000000-0000-0000-0000-%012x" % n
+    # the harness reports the UUID 00000000-0000-0000-0000-<n> under the alias "k<n>"
+    return "k%d" % n
 
 
 def mkid(tk):
@@ -240,7 +242,7 @@ def harness_violation(case, r):
 def to_coq(case, r):
     steps = []
     for o, s in zip(case["ops"], r["steps"]):
-        ob = cpair(c_outcome(o, s["err"]), c_view(s["v"]), c_view(s["cv"]),
+        ob = cpair(c_outcome(o, s["err"]), c_view(s["v"]), "None" if s["cv"] == s["v"] else "(Some %s)" % c_view(s["cv"]),
                    clist([cpair(ERR[x["e"]], clist([c_word(k) for k in x["k"] or []])) for x in s["rp"] or []]))
         steps.append(cpair(c_op(o), ob))
     return cpair(clist([c_raw_id((i["t"], i["k"])) for i in case["subjects"]]), c_view(r["init"]), clist(steps))
